@@ -112,7 +112,19 @@ impl<'a, 'b> Gen<'a, 'b> {
                 }
             }
             Ty::Float => {
-                if self.cfg.literal_variety && self.t.chance(1, 3) {
+                if self.t.chance(1, 10) {
+                    // values only arithmetic produces: negative zero, infinity, not-a-number, zero
+                    self.mark("float-edge");
+                    let f = |x: f64| Box::new(E::Float(x));
+                    let neg_one = Box::new(E::Bin(Op::Sub, f(0.0), f(1.0)));
+                    match self.t.choice(5) {
+                        0 => E::Bin(Op::Mul, f(0.0), neg_one),
+                        1 => E::Bin(Op::Div, f(0.0), f(0.0)),
+                        2 => E::Bin(Op::Div, f(1.0), f(0.0)),
+                        3 => E::Bin(Op::Div, neg_one, f(0.0)),
+                        _ => E::Float(0.0),
+                    }
+                } else if self.cfg.literal_variety && self.t.chance(1, 3) {
                     E::Float(*self.t.pick(&[1.0, 100.0, 0.0, 1e21, 1e-7, 123456.789, 2.0]))
                 } else {
                     E::Float(FLOATS[self.t.choice(FLOATS.len())])
@@ -139,11 +151,20 @@ impl<'a, 'b> Gen<'a, 'b> {
                     names.push(n);
                 }
                 let mark = self.scope.len();
+                // the reference does not say whether a function defined inside a copy body
+                // may refer to that copy's `self`: not generated
+                let hidden: Vec<usize> = (0..mark).filter(|i| self.scope[*i].0 == "self").collect();
+                for i in &hidden {
+                    self.scope[*i].0 = "\u{0}hidden-self".to_string();
+                }
                 for (n, t) in names.iter().zip(params) {
                     self.scope.push((n.clone(), t.clone()));
                 }
                 let body = self.expr(ret, depth + 1);
                 self.scope.truncate(mark);
+                for i in &hidden {
+                    self.scope[*i].0 = "self".to_string();
+                }
                 self.mark("func");
                 E::Func { params: names, body: Box::new(body) }
             }
@@ -181,7 +202,7 @@ impl<'a, 'b> Gen<'a, 'b> {
                 continue;
             }
             seen.push(n);
-            if t == ty {
+            if t == ty && !n.starts_with('\u{0}') {
                 out.push(n.clone());
             }
         }
@@ -198,6 +219,9 @@ impl<'a, 'b> Gen<'a, 'b> {
                 continue;
             }
             seen.push(n);
+            if n.starts_with('\u{0}') {
+                continue;
+            }
             out.push((n.clone(), t.clone()));
         }
         out.reverse();
@@ -210,7 +234,7 @@ impl<'a, 'b> Gen<'a, 'b> {
         let cand = match k {
             1 => {
                 let vis = self.visible();
-                let vis: Vec<&(String, Ty)> = vis.iter().filter(|(n, _)| n != "mod" && n != "self" && n != "item").collect();
+                let vis: Vec<&(String, Ty)> = vis.iter().filter(|(n, _)| n != "mod" && n != "self" && n != "item" && !n.starts_with('\u{0}')).collect();
                 if vis.is_empty() {
                     None
                 } else {
@@ -816,7 +840,18 @@ impl<'a, 'b> Gen<'a, 'b> {
         let mut fields = vec![];
         for (k, t) in fs {
             if self.t.chance(1, 2) {
-                if self.t.chance(1, 4) {
+                let printable: Vec<String> = fs.iter().filter(|(_, ft)| matches!(ft, Ty::Int | Ty::Str | Ty::Bool)).map(|(k2, _)| k2.clone()).collect();
+                if *t == Ty::Str && !printable.is_empty() && self.t.chance(1, 4) {
+                    // `self` reaching into a format expression: as its argument or inside the template
+                    self.mark("copy-self-in-format");
+                    let k2 = printable[self.t.choice(printable.len())].clone();
+                    let e = if self.t.chance(1, 2) {
+                        E::FormatExpr(vec![Part::Lit("<".into()), Part::Expr(E::Field(Box::new(E::Sym("item".into())), Sel::Name(k2))), Part::Lit(">".into())], Box::new(E::Sym("self".into())))
+                    } else {
+                        E::FormatExpr(vec![Part::Expr(E::Field(Box::new(E::Sym("self".into())), Sel::Name(k2))), Part::Lit("/".into()), Part::Expr(E::Sym("item".into()))], Box::new(E::Int(7)))
+                    };
+                    fields.push((k.clone(), e));
+                } else if self.t.chance(1, 4) {
                     self.mark("copy-self");
                     // self.k op something when possible
                     let sf = E::Field(Box::new(E::Sym("self".into())), Sel::Name(k.clone()));
@@ -842,8 +877,24 @@ impl<'a, 'b> Gen<'a, 'b> {
 
     /// A statement; may add a binding to the scope.
     pub fn stmt(&mut self) -> Stmt {
-        let k = self.t.weighted(&[10, if self.cfg.funcs { 4 } else { 0 }, if self.cfg.modules { 2 } else { 0 }, 1, 2, if self.cfg.funcs { 2 } else { 0 }]);
+        let tuples_in_scope: Vec<Vec<(String, Ty)>> = self
+            .visible()
+            .into_iter()
+            .filter_map(|(n, t)| match t {
+                Ty::Tuple(fs) if n != "self" && n != "mod" && n != "item" && !fs.is_empty() && fs.iter().all(|(_, ft)| !matches!(ft, Ty::Func(..) | Ty::Module(..))) => Some(fs),
+                _ => None,
+            })
+            .collect();
+        let k = self.t.weighted(&[10, if self.cfg.funcs { 4 } else { 0 }, if self.cfg.modules { 2 } else { 0 }, 1, 2, if self.cfg.funcs { 2 } else { 0 }, if tuples_in_scope.is_empty() { 0 } else { 3 }]);
         match k {
+            6 => {
+                // a copy of a tuple that is in scope
+                let fs = tuples_in_scope[self.t.choice(tuples_in_scope.len())].clone();
+                let e = self.copy_of(&fs, 0);
+                let name = self.fresh("v");
+                self.scope.push((name.clone(), Ty::Tuple(fs)));
+                Stmt::Let(name, e)
+            }
             5 => {
                 // a function that reads several fields of one tuple parameter
                 self.mark("record-function");
